@@ -252,7 +252,7 @@ func c07One(c *core.Collector, tc gen.TCase) {
 }
 
 func c07Bodies(c *core.Collector, x *Ctx) {
-	c.Rule = "per two-way type (x 2011/2013/2019 where layouts differ, x 5 dialects for 0x1210/0x9208, terminal parameters populated by reflection over every ParamContent field, list lengths 0,1,2,3,max,random) " +
+	c.Rule = "per two-way type (x 2011/2013/2019 where layouts differ, x 5 dialects for 0x1210/0x9208, terminal parameters populated by reflection over every ParamContent field, list lengths 0,1,2,3,max,random; plus 0x0805 / 0x0704 / 0x1205 values of 65 KB .. 260 KB) " +
 		"a seeded in-domain value v: checks Parse(Encode(v)) == v (canonical dump) and Encode(Parse(Encode(v))) == Encode(v). every generated value is non-trivial; distinct by hash of (type, encoding)"
 	n := c.N(3000, 150000)
 	types := map[string]bool{}
@@ -272,6 +272,12 @@ func c07Bodies(c *core.Collector, x *Ctx) {
 			tmu <- struct{}{}
 		}
 	})
+	// values whose encoding exceeds 65535 bytes (sub-packaged on the wire): list counts of tens of thousands
+	{
+		bigs := gen.BigCases(gen.G{Rand: core.NewRand(c.Seed, "c07big", 0)})
+		core.ParallelFor(len(bigs), ncpu(), func(i int) { c07One(c, bigs[i]) })
+		c.Count("values_larger_than_65535_bytes", int64(len(bigs)))
+	}
 	// every terminal-parameter field alone and all together
 	fields := gen.ParamFieldIDs()
 	names := []string{}
